@@ -137,5 +137,29 @@ theorem split_complete (h : S.WF) (hg : S.Glue) (T' : Interp α)
   obtain ⟨T, hT, hext⟩ := def_ext_complete S.unfolded (S.defs h) (S.unfolded_indep h) (S.dfn_pers h) T' h1
   exact ⟨T, (S.stable_unfolded hg T).mpr hT, hext⟩
 
+/-- **folding against a definition that is already there**: with the auxiliary rules present on both sides, replacing
+the moved part by its auxiliary atom does not change the stable models at all (no extension: same interpretation) -/
+theorem fold_existing (h : S.WF) (hg : S.Glue) (T : Interp α) :
+    Stable (Union S.orig (S.defs h).rules) T ↔ Stable (Union S.folded (S.defs h).rules) T := by
+  have hm : ∀ H T', Models (Union S.orig (S.defs h).rules) H T' ↔ Models (Union S.unfolded (S.defs h).rules) H T' := by
+    intro H T'
+    constructor
+    · intro hM r hr
+      rcases hr with hr | hr
+      · exact (S.models_unfolded hg H T').mp (fun r' hr' => hM r' (Or.inl hr')) r hr
+      · exact hM r (Or.inr hr)
+    · intro hM r hr
+      rcases hr with hr | hr
+      · exact (S.models_unfolded hg H T').mpr (fun r' hr' => hM r' (Or.inl hr')) r hr
+      · exact hM r (Or.inr hr)
+  have h1 : Stable (Union S.orig (S.defs h).rules) T ↔ Stable (Union S.unfolded (S.defs h).rules) T := by
+    unfold Stable
+    rw [hm T T]
+    constructor
+    · rintro ⟨a, b⟩; exact ⟨a, fun H hs hM => b H hs ((hm H T).mpr hM)⟩
+    · rintro ⟨a, b⟩; exact ⟨a, fun H hs hM => b H hs ((hm H T).mp hM)⟩
+  rw [h1]
+  exact fold_stable S.unfolded S.folded (S.defs h) (S.unfolded_indep h) (S.dfn_pers h) (S.folding h) T
+
 end SplitData
 end HT
